@@ -36,8 +36,69 @@ func mulInf(x, y float64) float64 {
 }
 func hull(a, b ival) ival { return ival{math.Min(a.lo, b.lo), math.Max(a.hi, b.hi)} }
 
+// onceCell: v is a load of a variable cell that is assigned exactly once (a local captured by a closure lives in a
+// heap cell even when it is never reassigned: `n := len(p)` then `func() { ... n ... }`): the load IS the stored
+// value. nil otherwise.
+func onceCell(v ssa.Value) ssa.Value {
+	u, ok := v.(*ssa.UnOp)
+	if !ok || u.Op != token.MUL {
+		return nil
+	}
+	al, ok := u.X.(*ssa.Alloc)
+	if !ok || al.Referrers() == nil {
+		return nil
+	}
+	var st *ssa.Store
+	for _, r := range *al.Referrers() {
+		switch x := r.(type) {
+		case *ssa.Store:
+			if x.Addr != ssa.Value(al) || st != nil {
+				return nil
+			}
+			st = x
+		case *ssa.UnOp:
+			if x.Op != token.MUL {
+				return nil
+			}
+		case *ssa.MakeClosure:
+			fn, _ := x.Fn.(*ssa.Function)
+			if fn == nil {
+				return nil
+			}
+			for i, bnd := range x.Bindings {
+				if bnd != ssa.Value(al) || i >= len(fn.FreeVars) {
+					continue
+				}
+				if refs := fn.FreeVars[i].Referrers(); refs != nil {
+					for _, fr := range *refs {
+						if lu, isLoad := fr.(*ssa.UnOp); !isLoad || lu.Op != token.MUL {
+							return nil // the closure writes the cell or passes its address on
+						}
+					}
+				}
+			}
+		case *ssa.DebugRef:
+		default:
+			return nil
+		}
+	}
+	if st == nil || !(st.Block() == u.Block() || st.Block().Dominates(u.Block())) {
+		return nil
+	}
+	if st.Block() == u.Block() && instrIndex(st) > instrIndex(u) {
+		return nil
+	}
+	return st.Val
+}
+
 // sameExpr: structural equality of pure integer expressions (SSA does no CSE).
 func sameExpr(a, b ssa.Value, d int) bool {
+	if w := onceCell(a); w != nil {
+		a = w
+	}
+	if w := onceCell(b); w != nil {
+		b = w
+	}
 	if a == b {
 		return true
 	}
@@ -78,6 +139,9 @@ func bound(v ssa.Value, at *ssa.BasicBlock, depth int, seen map[ssa.Value]bool) 
 	}
 	seen[v] = true
 	defer delete(seen, v)
+	if w := onceCell(v); w != nil {
+		return bound(w, at, depth+1, seen)
+	}
 	r := top
 	switch x := v.(type) {
 	case *ssa.Const:
